@@ -414,8 +414,10 @@ example : kindOf exLook2 C06LP.exS 91 91 = .park ∧ kindOf exLook2 C06LP.exS 70
 concurrently (`send_anti_messages`: `fetch_add(&msg->flags, MSG_FLAG_ANTI)`), before the receiver dequeues the flagged message.
 In between, a message with the SAME time stamp that is before the flagged one by content is NOT recognised as a straggler: the
 concrete LP processes it after the flagged message, the abstract `exec` undoes the flagged message first. (Harmless for the final
-result — the pending anti-message rolls both back — but the step is not an `exec` of the abstract machine; `Driver/Run.lean`'s
-`twshadow` check would report it.) -/
+result — the pending anti-message rolls both back — but the step is not an `exec` of the content-rule machines
+`Model/TimeWarp.lean` / `Model/TimeWarpG.lean`. It IS an `exec` of the machine with the code's straggler rule, `Model/TimeWarpD.lean`,
+for which the end-to-end theorems are proved in `Props/C01GlueD.lean`; `Driver/Run.lean`'s shadow steps that machine with the split
+point the code used.) -/
 
 def cxEv : Nat → Event := fun m =>
   if m = 9 then { dest := 0, t := 20, type := 2, payload := [] } else { dest := 0, t := 10 * m, type := 1, payload := [] }
